@@ -48,3 +48,78 @@ pub fn panic_holding_tz_provider() {
     let _guard = crate::builtins::TZ_PROVIDER.lock();
     panic!("verif_hooks: injected panic while holding TZ_PROVIDER");
 }
+
+// ==== option resolution (crate-private `ResolvedRoundingOptions`) ====
+
+use crate::options::{
+    DifferenceOperation, DifferenceSettings, ResolvedRoundingOptions, RoundingOptions,
+    ToStringRoundingOptions, Unit, UnitGroup,
+};
+use crate::parsers::Precision;
+
+/// (largest_unit, smallest_unit, increment, rounding_mode)
+pub type ResolvedTuple = (Unit, Unit, u32, RoundingMode);
+
+fn tuple(r: ResolvedRoundingOptions) -> ResolvedTuple {
+    (
+        r.largest_unit,
+        r.smallest_unit,
+        r.increment.get(),
+        r.rounding_mode,
+    )
+}
+
+/// `ResolvedRoundingOptions::from_diff_settings`
+pub fn resolve_diff_settings(
+    options: DifferenceSettings,
+    since: bool,
+    unit_group: UnitGroup,
+    fallback_largest: Unit,
+    fallback_smallest: Unit,
+) -> TemporalResult<ResolvedTuple> {
+    let op = if since {
+        DifferenceOperation::Since
+    } else {
+        DifferenceOperation::Until
+    };
+    ResolvedRoundingOptions::from_diff_settings(
+        options,
+        op,
+        unit_group,
+        fallback_largest,
+        fallback_smallest,
+    )
+    .map(tuple)
+}
+
+/// `ResolvedRoundingOptions::from_duration_options`
+pub fn resolve_duration_options(
+    options: RoundingOptions,
+    existing_largest: Unit,
+) -> TemporalResult<ResolvedTuple> {
+    ResolvedRoundingOptions::from_duration_options(options, existing_largest).map(tuple)
+}
+
+/// `ResolvedRoundingOptions::from_datetime_options`
+pub fn resolve_datetime_options(options: RoundingOptions) -> TemporalResult<ResolvedTuple> {
+    ResolvedRoundingOptions::from_datetime_options(options).map(tuple)
+}
+
+/// `ResolvedRoundingOptions::from_instant_options`
+pub fn resolve_instant_options(options: RoundingOptions) -> TemporalResult<ResolvedTuple> {
+    ResolvedRoundingOptions::from_instant_options(options).map(tuple)
+}
+
+/// `ToStringRoundingOptions::resolve` → (precision, smallest_unit, rounding_mode, increment)
+pub fn resolve_to_string_options(
+    options: ToStringRoundingOptions,
+) -> TemporalResult<(Precision, Unit, RoundingMode, u32)> {
+    options.resolve().map(|r| {
+        (
+            r.precision,
+            r.smallest_unit,
+            r.rounding_mode,
+            r.increment.get(),
+        )
+    })
+}
